@@ -20,7 +20,7 @@ Layers
   `readNtv2File`, `interpolate`, `ntv2_2d`.
 
 Not modelled (documented in the report): non-ASCII header bytes (any byte ≥ 0x80 is reported as
-`ValueError`), date strings that are not exactly eight characters, the BLAS summation order of
+`ValueError`), the BLAS summation order of
 `np.matmul` (the model sums each row left to right), `OverflowError` of `x ** i`.
 No Mathlib import.
 -/
@@ -105,17 +105,55 @@ def daysInMonth (y m : Nat) : Nat :=
 
 def pad2 (n : Nat) : String := if n < 10 then "0" ++ toString n else toString n
 
-/-- `datetime.strptime(s, '%d%m%Y').strftime('%d/%m/%Y')` for eight-character strings
-(glibc `%Y` does not pad the year) -/
+def dig (c : Char) : Nat := c.toNat - '0'.toNat
+def inR (c lo hi : Char) : Bool := lo.toNat ≤ c.toNat && c.toNat ≤ hi.toNat
+
+/-- the alternatives of `%d` = `3[0-1]|[1-2]\d|0[1-9]|[1-9]| [1-9]` that match a prefix, in regex order,
+each with the remaining input -/
+def dayAlts (cs : List Char) : List (Nat × List Char) :=
+  (match cs with
+    | a :: b :: r => (if a == '3' && inR b '0' '1' then [(30 + dig b, r)] else []) ++
+                     (if inR a '1' '2' && b.isDigit then [(10 * dig a + dig b, r)] else []) ++
+                     (if a == '0' && inR b '1' '9' then [(dig b, r)] else [])
+    | _ => []) ++
+  (match cs with
+    | a :: r => if inR a '1' '9' then [(dig a, r)] else []
+    | _ => []) ++
+  (match cs with
+    | a :: b :: r => if a == ' ' && inR b '1' '9' then [(dig b, r)] else []
+    | _ => [])
+
+/-- `%m` = `1[0-2]|0[1-9]|[1-9]` -/
+def monthAlts (cs : List Char) : List (Nat × List Char) :=
+  (match cs with
+    | a :: b :: r => (if a == '1' && inR b '0' '2' then [(10 + dig b, r)] else []) ++
+                     (if a == '0' && inR b '1' '9' then [(dig b, r)] else [])
+    | _ => []) ++
+  (match cs with
+    | a :: r => if inR a '1' '9' then [(dig a, r)] else []
+    | _ => [])
+
+/-- `%Y` = `\d\d\d\d` -/
+def yearAlt (cs : List Char) : Option (Nat × List Char) :=
+  match cs with
+  | a :: b :: c :: d :: r =>
+    if a.isDigit && b.isDigit && c.isDigit && d.isDigit
+    then some (1000 * dig a + 100 * dig b + 10 * dig c + dig d, r) else none
+  | _ => none
+
+/-- first match of the backtracking regex for `'%d%m%Y'`: `(day, month, year, unconverted rest)` -/
+def matchDMY (cs : List Char) : Option (Nat × Nat × Nat × List Char) :=
+  ((dayAlts cs).flatMap fun (d, r1) => (monthAlts r1).filterMap fun (m, r2) =>
+      (yearAlt r2).map fun (y, r3) => (d, m, y, r3)).head?
+
+/-- `datetime.strptime(s, '%d%m%Y').strftime('%d/%m/%Y')` on an ASCII string (glibc `%Y` does not
+pad the year) -/
 def reformatDate (s : String) : Except Err String :=
-  let cs := s.toList
-  if cs.length ≠ 8 || !(cs.all Char.isDigit) then .error .ValueError
-  else
-    let v (l : List Char) : Nat := l.foldl (fun a c => a * 10 + (c.toNat - '0'.toNat)) 0
-    let d := v (cs.take 2)
-    let m := v ((cs.drop 2).take 2)
-    let y := v (cs.drop 4)
-    if m < 1 || m > 12 || y < 1 || d < 1 || d > daysInMonth y m then .error .ValueError
+  match matchDMY s.toList with
+  | none => .error .ValueError
+  | some (d, m, y, rest) =>
+    if !rest.isEmpty then .error .ValueError                    -- unconverted data remains
+    else if y < 1 || d > daysInMonth y m then .error .ValueError -- datetime(y, m, d)
     else .ok (pad2 d ++ "/" ++ pad2 m ++ "/" ++ toString y)
 
 /-! ## Grid objects -/
